@@ -147,7 +147,7 @@ theorem xstep_invX {cfg : Cfg} (hg : cfg.Good) {x : XState} (h : Inv x.core) (hx
       · have hne : sid ≠ x.core.nextSid := Nat.ne_of_lt hlt
         simpa [setN, hne] using h0
       · exact h0
-    · simp [hp, setN]
+    · simp [hp, setN, hg.2.2.2.2.1]
   · have h1 : ∀ c w, st ≠ .call c w := fun c w e => hc ⟨c, w, e⟩
     have h2 : ∀ c, st ≠ .cConnect c := fun c e => hc' ⟨c, e⟩
     obtain ⟨e1, e2⟩ := xstep_other cfg x st n h1 h2
